@@ -2,7 +2,7 @@
    This file contains only the property statements; every proof is `exact <lemma>`.
    Text = list of Unicode scalar values. `convert` is the model of sutoton::convert, `conv_loop f sl s`
    its main loop from vocabulary list `sl` and remaining text `s` with fuel `f`; `sutoton_table` is
-   regenerated from sutoton.rs on every run; longest_match / translit / segmented / passthru / strip /
+   regenerated from sutoton.rs on every run; longest_match / translit / segmented / passthru / strip_right /
    width_map are the specification (spec/RewriteSpec.v). *)
 From Sakura.Model Require Import Base Cursor Cursor2 Zen2han Sutoton.
 From Sakura.Gen Require Import SutotonTable.
@@ -58,8 +58,9 @@ Theorem C17_table_no_ascii :
 Proof. exact table_facts. Qed.
 
 (* ASCII text without '~' whose strings {"..."} and comments // ...\n, /* ... */ are closed (their
-   content is arbitrary, Japanese included) passes through unchanged apart from outer white space. *)
-Theorem C17_ascii_identity : forall s : list Z, passthru is_ascii s -> convert s = Ok (strip s).
+   content is arbitrary, Japanese included) passes through unchanged apart from trailing white space (convert ends with trim_end: leading
+   white space is kept so that line numbers are right). *)
+Theorem C17_ascii_identity : forall s : list Z, passthru is_ascii s -> convert s = Ok (strip_right s).
 Proof. exact ascii_identity. Qed.
 
 (* Closed strings and comments of the three forms the converter knows are copied verbatim, whatever
@@ -94,7 +95,7 @@ Proof. exact conv_unterminated. Qed.
 (* ... but the '#' line-comment forms of the lexer are not protected: "c # ド" becomes "c # c"
    (known finding C17-hash-comment-text). *)
 Theorem C17_hash_comment_refuted :
-  convert [99; 32; 35; 32; 12489] = Ok [99; 32; 35; 32; 99] /\ [99; 32; 35; 32; 99] <> strip [99; 32; 35; 32; 12489].
+  convert [99; 32; 35; 32; 12489] = Ok [99; 32; 35; 32; 99] /\ [99; 32; 35; 32; 99] <> strip_right [99; 32; 35; 32; 12489].
 Proof. exact hash_comment_refuted. Qed.
 
 (* A definition ~{name}={mml} (non-empty name, no braces inside) emits nothing and applies from its
@@ -119,7 +120,7 @@ Proof. exact conv_homomorphism. Qed.
 
 (* ... in particular for convert and the built-in table. *)
 Theorem C17_homomorphism : forall ps : list piece,
-  segmented sutoton_table ps [] = true -> convert (src_of ps) = Ok (strip (translit ps)).
+  segmented sutoton_table ps [] = true -> convert (src_of ps) = Ok (strip_right (translit ps)).
 Proof. exact homomorphism. Qed.
 
 (* Consequently a Japanese source (words, ASCII, full-width forms, wide spaces) and its
